@@ -431,3 +431,25 @@ example : specOut Sha2.sha256Hex
 " := by native_decide
 
 end SophiaProofs.C06
+
+namespace SophiaProofs.C06
+open SophiaModel SophiaModel.Rdfc10
+
+/-! ### "fails only with an explicit error" -/
+
+/-- **`normalize_with` fails only with an explicit, documented error**: a result, `Unsupported`
+(characterised by `unsupported_iff_now`), or `ToxicGraph` for one of its two causes — for every
+dataset, hash function, depth factor and permutation limit; no panic, no unbounded recursion
+(`C05.relabel_outcomes_explicit`).  That a `ToxicGraph` only arises for a limit actually exceeded is
+monotonicity (`limits_only_fail`) plus the differential oracle `o.st=ok`, not a theorem. -/
+theorem fails_only_explicitly (H : Str → Str) (td : Nat → Nat → Bool) (pl : Nat) (D : List Quad) :
+    (∃ s, normalizeWith H td pl D = .ok s) ∨ normalizeWith H td pl D = .error .unsupported ∨
+      normalizeWith H td pl D = .error (.hnd .depth) ∨ normalizeWith H td pl D = .error (.hnd .perms) := by
+  unfold normalizeWith
+  rcases C05.relabel_outcomes_explicit H td pl D with ⟨r, hr⟩ | hr | hr | hr
+  · exact Or.inl ⟨_, by rw [hr]; rfl⟩
+  · exact Or.inr (Or.inl (by rw [hr]; rfl))
+  · exact Or.inr (Or.inr (Or.inl (by rw [hr]; rfl)))
+  · exact Or.inr (Or.inr (Or.inr (by rw [hr]; rfl)))
+
+end SophiaProofs.C06
